@@ -23,16 +23,17 @@ import (
 )
 
 var (
-	quoted1Re  = regexp.MustCompile(`'([^']*)'`)
-	quoted2Re  = regexp.MustCompile(`"((?:[^"\\]|\\.)*)"`)
-	quoted3Re  = regexp.MustCompile(`>>(.*?)<<`)
-	pathRe     = regexp.MustCompile(`[\w.\-]+(?:/[\w.\-]+)+`)
-	drcSufRe   = regexp.MustCompile(`-DRC-\d+`)
-	wordSepRe  = regexp.MustCompile(`[\s'"<>(),:;=\[\]{}]+`)
-	specialRe  = regexp.MustCompile(`[0-9A-Z_\-/.]`)
-	letterRe   = regexp.MustCompile(`[A-Za-z]`)
-	msgPrefix  = []string{"ERROR>>> ", "WARNING>>> ", "Error: ", "ERROR>>>", "WARNING>>>"}
-	noNameElem = regexp.MustCompile(`<entry\s*/?>|name=""`)
+	quoted1Re   = regexp.MustCompile(`'([^']*)'`)
+	quoted2Re   = regexp.MustCompile(`"((?:[^"\\]|\\.)*)"`)
+	quoted3Re   = regexp.MustCompile(`>>(.*?)<<`)
+	devAnswerRe = regexp.MustCompile(`/policy/api/|/api/|While reading device|Devices unreachable|Wrong device name`)
+	pathRe      = regexp.MustCompile(`[\w.\-]+(?:/[\w.\-]+)+`)
+	drcSufRe    = regexp.MustCompile(`-DRC-\d+`)
+	wordSepRe   = regexp.MustCompile(`[\s'"<>(),:;=\[\]{}]+`)
+	specialRe   = regexp.MustCompile(`[0-9A-Z_\-/.]`)
+	letterRe    = regexp.MustCompile(`[A-Za-z]`)
+	msgPrefix   = []string{"ERROR>>> ", "WARNING>>> ", "Error: ", "ERROR>>>", "WARNING>>>"}
+	noNameElem  = regexp.MustCompile(`<entry\s*/?>|name=""`)
 )
 
 // validUTF8: every invalid byte becomes U+FFFD, as encoding/json does when the case travels to the worker.
@@ -108,9 +109,20 @@ func namesInput(c *c20Case, text string) string {
 			return "file"
 		}
 	}
+	// answers of a simulated device: the request (URL path), the device or "device" as the source names the input
+	if len(c.HTTP) > 0 && devAnswerRe.MatchString(m) {
+		return "file"
+	}
 	var all strings.Builder
 	lineSet := map[string]bool{}
+	texts := []string{}
 	for _, v := range c.Files {
+		texts = append(texts, v)
+	}
+	for _, v := range c.HTTP {
+		texts = append(texts, strings.TrimPrefix(v, "STATUS:"))
+	}
+	for _, v := range texts {
 		v = validUTF8(v) // as the worker gets it (JSON transport)
 		all.WriteString(v)
 		all.WriteString("\n")
